@@ -18,6 +18,11 @@ import Nstd.Args.Kernel
     killtest <mask>                         → kill ok=1
     fds                                     → fds          (the harness adds the number of leaked descriptors)
     execfail <path|empty|blank> <streams>   → xf ok=1 pipes=<p>   (an executable that cannot be started)
+    late <order> <mask> <ms> <code>         → late ok=1 pipes=<p> exit=<code|-> completed=<0|1>
+         order = join | dtor | readjoin | closejoin | kill; exit/completed come from the join-first pipe model
+         `Kernel.SysJ.exec` with join() as coded (`joinProgram`); `kill` assumes the child is still waiting
+    sig <mask> <signal>                     → sig ok=1 pipes=<p>
+    killbusy <mask>                         → kb ok=1 pipes=<p>
     fdtable <streams>                       → ft ok=1 out=<holders> err=<holders> in=<holders>
          holders = none | P:<mode>@<member>,...;C:<mode>@<descriptor>,...   from the descriptor-table model
          Kernel.openFds (the real tables are read through /proc by the harness)
@@ -108,6 +113,8 @@ def runOp (pe : PEnv) (form : String) (streams : Nat) (env : List (Str × Str)) 
     | some none => some "FAULT"
     | some (some e) => some (showExec pe e)
 
+def b01 (b : Bool) : String := if b then "1" else "0"
+
 /-- the descriptor-table model run on the table {0,1,2} with `pipe()` returning 3/4, 5/6, 7/8 -/
 def fdTableLine (streams : Nat) : String :=
   let base : Kernel.FdTable := fun x => if x < 3 then some (.other x) else none
@@ -153,6 +160,33 @@ def stepLine' (pe : PEnv) (ws : List String) : String :=
       | some _ => "exit ok=1"
       | none => "bad-op"
     | ["fds"] => "fds"
+    | ["late", order, m, ms, code] =>
+      match m.toNat?, ms.toNat?, code.toNat? with
+      | some m, some _, some c =>
+        let m := m % 8
+        -- the short line the child writes to each redirected output stream (25 bytes, far below any pipe capacity)
+        let line := (List.range 25).map (fun _ => 120)
+        let out := if m % 2 == 1 then line else []
+        let err := if m / 2 % 2 == 1 then line else []
+        let show1 (r : Option Nat × Bool) (withCode : Bool) : String :=
+          s!"late ok=1 pipes={m} exit={if withCode then (match r.1 with | some x => toString x | none => "-") else "-"} completed={b01 r.2}"
+        if order == "join" || order == "readjoin" then
+          show1 (Kernel.SysJ.exec 200 (Kernel.SysJ.init 65536 Kernel.joinProgram out err c)) true
+        else if order == "dtor" then
+          show1 (Kernel.SysJ.exec 200 (Kernel.SysJ.init 65536 Kernel.joinProgram out err c)) false
+        else if order == "closejoin" then
+          show1 (Kernel.SysJ.exec 200 (Kernel.SysJ.init 65536 ([.closeIn, .closeOut, .closeErr] ++ Kernel.joinProgram) out err c)) true
+        else if order == "kill" then s!"late ok=1 pipes={m} exit=- completed=0"
+        else "bad-op"
+      | _, _, _ => "bad-op"
+    | ["sig", m, sg] =>
+      match m.toNat?, sg.toNat? with
+      | some m, some _ => s!"sig ok=1 pipes={m % 8}"
+      | _, _ => "bad-op"
+    | ["killbusy", m] =>
+      match m.toNat? with
+      | some m => s!"kb ok=1 pipes={m % 8}"
+      | none => "bad-op"
     | ["fdtable", m] =>
       match m.toNat? with
       | some m => fdTableLine (m % 8)
@@ -178,8 +212,6 @@ def stepLine' (pe : PEnv) (ws : List String) : String :=
       | some _ => "kill ok=1"
       | none => "bad-op"
     | _ => "bad-op"
-
-def b01 (b : Bool) : String := if b then "1" else "0"
 
 def showProc (r : Bool) (p : Proc) : String :=
   s!"p ok={b01 r} st={b01 p.running}{b01 p.out}{b01 p.err}{b01 p.inp}"
